@@ -37,11 +37,11 @@ CONFIGS = {
                  cxx="-DSYMENGINE_VERIF -Wno-error -fsanitize=address,undefined "
                      "-fno-sanitize-recover=undefined -fno-omit-frame-pointer",
                  rel="-O1 -g1", link="-fsanitize=address,undefined"),
-    "tsan": dict(cmake=["-DWITH_SYMENGINE_THREAD_SAFE=yes", "-DVERIF_THREADS=ON",
+    "tsan": dict(cmake=["-DWITH_SYMENGINE_ASSERT=yes", "-DWITH_SYMENGINE_THREAD_SAFE=yes", "-DVERIF_THREADS=ON",
                         "-DCMAKE_CXX_COMPILER=clang++", "-DCMAKE_C_COMPILER=clang"],
                  cxx="-DSYMENGINE_VERIF -Wno-error -fsanitize=thread",
                  rel="-O1 -g1", link="-fsanitize=thread"),
-    "thread": dict(cmake=["-DWITH_SYMENGINE_THREAD_SAFE=yes", "-DVERIF_THREADS=ON"],
+    "thread": dict(cmake=["-DWITH_SYMENGINE_ASSERT=yes", "-DWITH_SYMENGINE_THREAD_SAFE=yes", "-DVERIF_THREADS=ON"],
                    cxx="-DSYMENGINE_VERIF -Wno-error -pthread", rel="-O1 -g0"),
     "llvm": dict(cmake=["-DWITH_SYMENGINE_ASSERT=yes", "-DWITH_LLVM=yes",
                         "-DLLVM_DIR=/usr/lib/llvm-14/lib/cmake/llvm"],
